@@ -3,7 +3,7 @@
    pure functions on the object map (the refinement targets of Engine/Cluster.v), and the
    field-level reading of the three-way merge. *)
 From Coq Require Import List String Bool Arith.
-From Helm Require Import Common.Assoc Engine.Types Engine.Eff Engine.Cluster.
+From Helm Require Import Common.Assoc Engine.Types Engine.Eff Engine.Ops Engine.Cluster Engine.Seq.
 Import ListNotations.
 
 Definition objmap := list (string * fields).
@@ -85,3 +85,17 @@ Fixpoint delete_all_objs (o : objmap) (rs : list res) : objmap :=
   end.
 
 Definition nofault (k : kstate) : Prop := kfault k = None.
+
+(* ---- uninstall: deleteRelease's filesToDelete / filesToKeep after filterManifestsToKeep ---- *)
+Definition uninstall_deleted (rel : release) : list res :=
+  filter (fun r => negb (manifest_keep r)) (manifest rel).
+Definition uninstall_kept (rel : release) : list res := filter manifest_keep (manifest rel).
+
+(* what the response's Info lists ("[Kind] name" per kept manifest entry) when uninstall runs on [w] *)
+Definition kept_label (r : res) : string := ("[" ++ r_kind r ++ "] " ++ r_name r)%string.
+
+Definition model_kept (w : world) : list string :=
+  match max_rev_of (w_led w) with
+  | Some last => if status_eqb (st last) SUninstalled then [] else map kept_label (uninstall_kept last)
+  | None => []
+  end.
